@@ -78,4 +78,27 @@ Example C04_nonvacuous :
   | Fail _ => false end = true.
 Proof. vm_compute. split; reflexivity. Qed.
 
+(* "wherever in the output buffer the frame starts": how the length gets into its field.  The frame encoders write a
+   placeholder, the body, and then  binary.PutUint32(buf.Bytes()[pos:pos+4], n)  with Bytes() taken AFTER the body was
+   written.  On the buffer model (Model/Buffer.v, tied to bytes.Buffer by the "buf" correspondence slice) that is an
+   update of the unread bytes in place, for every buffer state - which is how Sem.v models it.  A slot kept from
+   BEFORE the body is the buffer's own memory only if the body needed no growth (second theorem; the failing
+   histories are Mutants/RetainedSlice.v) - the translator accepts only the first form. *)
+From FP.Model Require Buffer.
+From FP.Theory Require BufferRefine.
+Theorem C04_backfill_through_fresh_slice_is_update : forall h b p bs,
+  BufferRefine.WF h b -> (p + List.length bs <= Buffer.unread b)%nat ->
+  let h' := Buffer.swrite h (Buffer.sub (Buffer.bytes_of b) p (p + List.length bs)%nat) bs in
+  BufferRefine.WF h' b /\ Buffer.contents h' b = Buffer.blit (Buffer.contents h b) p bs.
+Proof. exact BufferRefine.fresh_backfill. Qed.
+
+Theorem C04_kept_slot_is_the_buffer_when_nothing_grew : forall nc h b bs h' b' s,
+  BufferRefine.WF h b -> (List.length bs <= Buffer.cap h b - Buffer.fin b)%nat ->
+  Buffer.s_arr s = Buffer.arr b -> (Buffer.s_lo s + Buffer.s_len s <= Buffer.fin b)%nat ->
+  Buffer.write nc h b bs = Some (h', b') ->
+  Buffer.arr b' = Buffer.arr b /\ Buffer.off b' = Buffer.off b /\ Buffer.sread h' s = Buffer.sread h s.
+Proof. exact BufferRefine.retained_slice_if_room. Qed.
+
+Print Assumptions C04_backfill_through_fresh_slice_is_update.
+Print Assumptions C04_kept_slot_is_the_buffer_when_nothing_grew.
 Print Assumptions C04_frame_body_length.
